@@ -11,7 +11,7 @@ pub mod ops;
 use interp::{Codec, Node};
 use linfa::dataset::DatasetBase;
 use model::{fname, intern, rec_value, reduce, tname, weight_value, Cx, LType, Model, Row};
-use ndarray::{s, Array1, Array2, ShapeBuilder};
+use ndarray::{s, Array1, Array2, Axis, ShapeBuilder};
 pub use ops::{Op, Ratio};
 use proptest::prelude::*;
 use serde::{Deserialize, Serialize};
@@ -27,6 +27,12 @@ pub enum Container {
     View,
     /// views that take every second row of arrays twice as long
     Strided,
+    /// owned, row-major, but NOT a fresh allocation: records, targets and weights were cut out of larger owned
+    /// arrays with `slice_move` (2 leading and 1 trailing filler rows stay in the buffer: non-zero pointer offset,
+    /// capacity larger than the array)
+    OwnedSliced,
+    /// owned, row-major, one filler row removed with `remove_index` (the removed elements stay at the end of the buffer)
+    OwnedRemoved,
 }
 
 #[derive(Clone, Debug, Serialize, Deserialize)]
@@ -44,6 +50,10 @@ pub struct Case {
     pub fnames: bool,
     pub tnames: bool,
     pub container: Container,
+    /// for `OwnedSliced` / `OwnedRemoved`: which arrays are not fresh allocations (bit 0 records, bit 1 targets,
+    /// bit 2 weights; 0 = all three)
+    #[serde(default)]
+    pub origin: u8,
     pub ops: Vec<Op>,
 }
 
@@ -79,16 +89,41 @@ fn initial_model(c: &Case) -> Model {
 }
 
 /// physical row -> logical sample (None = filler row of a strided backing array)
-fn logical(container: Container, r: usize) -> Option<usize> {
-    if container == Container::Strided {
-        if r % 2 == 0 {
-            Some(r / 2)
-        } else {
-            None
+fn logical(container: Container, r: usize, n: usize) -> Option<usize> {
+    match container {
+        Container::Strided => {
+            if r % 2 == 0 {
+                Some(r / 2)
+            } else {
+                None
+            }
         }
-    } else {
-        Some(r)
+        Container::OwnedSliced => {
+            if r >= SLICED_HEAD && r < SLICED_HEAD + n {
+                Some(r - SLICED_HEAD)
+            } else {
+                None
+            }
+        }
+        Container::OwnedRemoved => {
+            let f = removed_at(n);
+            if r < f {
+                Some(r)
+            } else if r == f {
+                None
+            } else {
+                Some(r - 1)
+            }
+        }
+        _ => Some(r),
     }
+}
+
+const SLICED_HEAD: usize = 2;
+const SLICED_TAIL: usize = 1;
+/// physical position of the filler row that `OwnedRemoved` removes
+fn removed_at(n: usize) -> usize {
+    n.min(1)
 }
 
 fn run_typed<L: Codec>(c: &Case, m: &Model, cx: &mut Cx)
@@ -99,22 +134,59 @@ where
     for<'x> DatasetBase<ndarray::ArrayView2<'x, f64>, ndarray::ArrayView2<'x, L>>: Node,
 {
     let nm = norm(c);
-    let phys = if c.container == Container::Strided { 2 * nm.n } else { nm.n };
     let cont = c.container;
-    let rec_at = |(r, j): (usize, usize)| match logical(cont, r) {
+    let n = nm.n;
+    let in_place = matches!(cont, Container::OwnedSliced | Container::OwnedRemoved);
+    let origin = if c.origin % 8 == 0 { 7 } else { c.origin % 8 };
+    // the container an individual array is built as (an array whose origin bit is off is a fresh allocation)
+    let kind = |bit: u8| if in_place && origin & bit == 0 { Container::Owned } else { cont };
+    let phys = |k: Container| match k {
+        Container::Strided => 2 * n,
+        Container::OwnedSliced => n + SLICED_HEAD + SLICED_TAIL,
+        Container::OwnedRemoved => n + 1,
+        _ => n,
+    };
+    let (kr, kt, kw) = (kind(1), kind(2), kind(4));
+    cx.obs.class_if(in_place && origin & 1 != 0, "records_not_a_fresh_allocation");
+    cx.obs.class_if(in_place && origin & 2 != 0, "targets_not_a_fresh_allocation");
+    cx.obs.class_if(in_place && origin & 4 != 0 && c.weights, "weights_not_a_fresh_allocation");
+    let rec_at = |(r, j): (usize, usize)| match logical(kr, r, n) {
         Some(i) => rec_value(i, j),
         None => -1.0 - j as f64,
     };
-    let lab_at = |r: usize, col: usize| match logical(cont, r) {
+    let lab_at = |r: usize, col: usize| match logical(kt, r, n) {
         Some(i) => L::enc(code(c, &nm, i, col)),
         None => L::enc(3),
     };
     let records = if cont == Container::OwnedF {
-        Array2::from_shape_fn((phys, nm.p).f(), rec_at)
+        Array2::from_shape_fn((phys(kr), nm.p).f(), rec_at)
     } else {
-        Array2::from_shape_fn((phys, nm.p), rec_at)
+        Array2::from_shape_fn((phys(kr), nm.p), rec_at)
     };
-    let weights: Array1<f32> = if c.weights { (0..nm.n).map(weight_value).collect() } else { Array1::zeros(0) };
+    let records = match kr {
+        Container::OwnedSliced => records.slice_move(s![SLICED_HEAD..SLICED_HEAD + n, ..]),
+        Container::OwnedRemoved => {
+            let mut r = records;
+            r.remove_index(Axis(0), removed_at(n));
+            r
+        }
+        _ => records,
+    };
+    let weights: Array1<f32> = if !c.weights {
+        Array1::zeros(0)
+    } else {
+        let full: Array1<f32> = (0..phys(kw)).map(|r| logical(kw, r, n).map(weight_value).unwrap_or(99.5)).collect();
+        match kw {
+            Container::OwnedSliced => full.slice_move(s![SLICED_HEAD..SLICED_HEAD + n]),
+            Container::OwnedRemoved => {
+                let mut w = full;
+                w.remove_index(Axis(0), removed_at(n));
+                w
+            }
+            // weights are always an owned vector of n entries, whatever the records / targets are
+            _ => (0..n).map(weight_value).collect(),
+        }
+    };
     let fnames: Vec<String> = if c.fnames { (0..nm.p).map(fname).collect() } else { vec![] };
     let tnames: Vec<String> = if c.tnames { (0..nm.tc).map(tname).collect() } else { vec![] };
     macro_rules! dress {
@@ -124,21 +196,43 @@ where
     }
     if nm.ix2 {
         let targets = if cont == Container::OwnedF {
-            Array2::from_shape_fn((phys, nm.tc).f(), |(r, col)| lab_at(r, col))
+            Array2::from_shape_fn((phys(kt), nm.tc).f(), |(r, col)| lab_at(r, col))
         } else {
-            Array2::from_shape_fn((phys, nm.tc), |(r, col)| lab_at(r, col))
+            Array2::from_shape_fn((phys(kt), nm.tc), |(r, col)| lab_at(r, col))
+        };
+        let targets = match kt {
+            Container::OwnedSliced => targets.slice_move(s![SLICED_HEAD..SLICED_HEAD + n, ..]),
+            Container::OwnedRemoved => {
+                let mut t = targets;
+                t.remove_index(Axis(0), removed_at(n));
+                t
+            }
+            _ => targets,
         };
         match cont {
-            Container::Owned | Container::OwnedF => dress!(DatasetBase::new(records, targets)).go(m, &c.ops, cx),
+            Container::Owned | Container::OwnedF | Container::OwnedSliced | Container::OwnedRemoved => {
+                dress!(DatasetBase::new(records, targets)).go(m, &c.ops, cx)
+            }
             Container::View => dress!(DatasetBase::new(records.view(), targets.view())).go(m, &c.ops, cx),
             Container::Strided => {
                 dress!(DatasetBase::new(records.slice(s![..;2, ..]), targets.slice(s![..;2, ..]))).go(m, &c.ops, cx)
             }
         }
     } else {
-        let targets = Array1::from_shape_fn(phys, |r| lab_at(r, 0));
+        let targets = Array1::from_shape_fn(phys(kt), |r| lab_at(r, 0));
+        let targets = match kt {
+            Container::OwnedSliced => targets.slice_move(s![SLICED_HEAD..SLICED_HEAD + n]),
+            Container::OwnedRemoved => {
+                let mut t = targets;
+                t.remove_index(Axis(0), removed_at(n));
+                t
+            }
+            _ => targets,
+        };
         match cont {
-            Container::Owned | Container::OwnedF => dress!(DatasetBase::new(records, targets)).go(m, &c.ops, cx),
+            Container::Owned | Container::OwnedF | Container::OwnedSliced | Container::OwnedRemoved => {
+                dress!(DatasetBase::new(records, targets)).go(m, &c.ops, cx)
+            }
             Container::View => dress!(DatasetBase::new(records.view(), targets.view())).go(m, &c.ops, cx),
             Container::Strided => dress!(DatasetBase::new(records.slice(s![..;2, ..]), targets.slice(s![..;2]))).go(m, &c.ops, cx),
         }
@@ -164,6 +258,8 @@ pub fn check(c: &Case, obs: &mut Obs) {
         Container::OwnedF => "start_owned_colmajor",
         Container::View => "start_view",
         Container::Strided => "start_strided_view",
+        Container::OwnedSliced => "start_owned_sliced_in_place",
+        Container::OwnedRemoved => "start_owned_row_removed",
     });
     obs.class(match c.lt {
         LType::Usize => "labels_usize",
@@ -232,7 +328,7 @@ pub fn check(c: &Case, obs: &mut Obs) {
 
 fn op_strategy() -> impl Strategy<Value = Op> {
     // kinds weighted: splits, with_labels and reorderings more often than the plain conversions
-    const TABLE: [u8; 26] = [0, 0, 0, 0, 1, 1, 1, 2, 2, 3, 4, 4, 5, 5, 5, 6, 6, 7, 7, 8, 9, 10, 11, 12, 13, 14];
+    const TABLE: [u8; 29] = [0, 0, 0, 0, 1, 1, 1, 2, 2, 3, 4, 4, 5, 5, 5, 6, 6, 7, 7, 8, 9, 10, 11, 12, 13, 14, 14, 15, 15];
     (0usize..TABLE.len(), any::<u8>(), any::<u8>(), any::<u16>(), any::<u64>())
         .prop_map(|(k, a, b, x, seed)| Op::from_parts(TABLE[k], a, b, x, seed))
 }
@@ -249,9 +345,17 @@ fn case_strategy(max_n: usize) -> impl Strategy<Value = Case> {
         prop_oneof![3 => Just(true), 1 => Just(false)],
         prop_oneof![3 => Just(true), 1 => Just(false)],
         prop_oneof![3 => Just(true), 1 => Just(false)],
-        prop_oneof![Just(Container::Owned), Just(Container::OwnedF), Just(Container::View), Just(Container::Strided)],
+        prop_oneof![
+            Just(Container::Owned),
+            Just(Container::OwnedF),
+            Just(Container::View),
+            Just(Container::Strided),
+            Just(Container::OwnedSliced),
+            Just(Container::OwnedRemoved)
+        ],
+        0u8..8,
     );
-    (head, flags, proptest::collection::vec(op_strategy(), 1..=6)).prop_flat_map(|((n, p, t, lt, k), (w, f, tn, cont), ops)| {
+    (head, flags, proptest::collection::vec(op_strategy(), 1..=6)).prop_flat_map(|((n, p, t, lt, k), (w, f, tn, cont, origin), ops)| {
         proptest::collection::vec(0u8..k, n * t.max(1)).prop_map(move |labels| Case {
             n,
             p,
@@ -262,6 +366,7 @@ fn case_strategy(max_n: usize) -> impl Strategy<Value = Case> {
             fnames: f,
             tnames: tn,
             container: cont,
+            origin,
             ops: ops.clone(),
         })
     })
@@ -278,7 +383,9 @@ pub fn case_from_bytes(data: &[u8]) -> Option<Case> {
         *pos += 1;
         b
     };
-    let n = (next(&mut pos) % 13) as usize;
+    let b0 = next(&mut pos);
+    let n = (b0 % 13) as usize;
+    let origin = (b0 / 13) % 8;
     let p = 1 + (next(&mut pos) % 4) as usize;
     let t = (next(&mut pos) % 4) as usize;
     let lt = match next(&mut pos) % 3 {
@@ -287,11 +394,13 @@ pub fn case_from_bytes(data: &[u8]) -> Option<Case> {
         _ => LType::Str,
     };
     let flags = next(&mut pos);
-    let container = match (flags >> 3) % 4 {
+    let container = match (flags >> 3) % 6 {
         0 => Container::Owned,
         1 => Container::OwnedF,
         2 => Container::View,
-        _ => Container::Strided,
+        3 => Container::Strided,
+        4 => Container::OwnedSliced,
+        _ => Container::OwnedRemoved,
     };
     let nops = 1 + (next(&mut pos) % 6) as usize;
     let mut labels = Vec::with_capacity(n * t.max(1));
@@ -320,6 +429,7 @@ pub fn case_from_bytes(data: &[u8]) -> Option<Case> {
         fnames: flags & 2 == 2,
         tnames: flags & 4 == 4,
         container,
+        origin,
         ops,
     })
 }
@@ -370,6 +480,7 @@ fn fixed_ops() -> Vec<Op> {
         Op::View,
         Op::ToOwned,
         Op::IntoSingle,
+        Op::Shrink { head: 1, tail: 1 },
     ]
 }
 
@@ -380,7 +491,11 @@ fn grid_labels(n: usize, tc: usize, variant: usize) -> Vec<u8> {
 fn bases(ns: &[usize]) -> Vec<Case> {
     let mut v = vec![];
     for &n in ns {
-        for (ci, cont) in [Container::Owned, Container::OwnedF, Container::View, Container::Strided].into_iter().enumerate() {
+        for (ci, cont) in
+            [Container::Owned, Container::OwnedF, Container::View, Container::Strided, Container::OwnedSliced, Container::OwnedRemoved]
+                .into_iter()
+                .enumerate()
+        {
             for t in 0..=2usize {
                 for (li, lt) in [LType::Usize, LType::Bool, LType::Str].into_iter().enumerate() {
                     v.push(Case {
@@ -393,6 +508,7 @@ fn bases(ns: &[usize]) -> Vec<Case> {
                         fnames: true,
                         tnames: true,
                         container: cont,
+                        origin: [7u8, 4, 3, 1, 2][(n + t + li) % 5],
                         ops: vec![],
                     });
                 }
@@ -455,7 +571,8 @@ pub fn property() -> Property {
         id: "C02",
         rule: "case = generated dataset (n 0..=16 quick / 0..=40 thorough samples, 1..=4 features, 1-D or 2-D label targets with 1..=3 columns over an \
                alphabet of 1..=4 labels of type usize|bool|&str, with/without weights, feature and target names; owned row-major, owned column-major, \
-               plain view, strided view) + history of 1..=6 operations interpreted step by step on the values linfa returns (typed interpreter over every \
+               plain view, strided view, owned-but-not-a-fresh-allocation: records/targets/weights (any non-empty subset) cut out of larger owned arrays by slice_move \
+               or remove_index, so pointer offset != 0 / capacity > length) + history of 1..=6 operations interpreted step by step on the values linfa returns (typed interpreter over every \
                reachable dataset shape), judged after every step against a Vec<Row> reference model; every row carries an identity tag \
                (records[i,j] = 8*tag+feature, weight = tag+0.5, names f<j>/t<c>). Plus enumerated strata: every single operation on a grid of shapes \
                (all split boundaries k/n, all label subsets, all chunk sizes) and all pairs of 18 representative operations. Non-trivial = at least one \
@@ -474,12 +591,14 @@ pub fn property() -> Property {
             "one_vs_all order of labels is unspecified (HashSet); compared as a set. label_count() of every returned dataset is compared with a recount of the targets it returns".into(),
             "a panic of ndarray 0.15's own debug assertion (`can_index_slice` inside to_owned/map/select, active only because the harness builds with debug assertions) on a dataset with ZERO samples that was sliced out of a larger array (empty half of a split, empty chunk) is not attributed to linfa: the history ends there, counted in class ndarray_debug_assertion_on_empty_sliced_array; any other panic is a failure".into(),
             "view implementation of split_with_ratio is always exercised as view().split_with_ratio(r) (view judged as its own step): linfa's signature (&'a self on DatasetBase<ArrayView2<'a,_>,_>) admits the call only in the frame that created the view".into(),
+            "dataset origin: besides fresh allocations, owned arrays shrunk in place are generated at the start (slice_move: 2 leading + 1 trailing filler rows stay in the buffer; remove_index: removed row stays at the end;              per array: records, targets, weights) and mid-history by the harness-side step shrink_in_place (slice_axis_inplace through the public fields records/targets/weights on an owned dataset, dropping 0..=2 leading and trailing samples);              every operation then runs on such arrays; they are row-major and contiguous, so no documented precondition is violated".into(),
+            "into_single_target with != 1 target columns is a documented panic: the call is made anyway, a panic is accepted, an answer must be n single targets (first column) next to the unchanged records".into(),
             "trusted base: ndarray, DatasetBase::new/with_weights/with_feature_names/with_target_names used to build the initial dataset".into(),
         ],
         subs: vec![
             prop_sub("histories", 240000, 2000000, |t: Tier| case_strategy(t.pick(16, 40)), check)
                 .chunks(16)
-                .require(&["reorder_then_select", "op:split_owned", "op:split_view", "op:with_labels", "op:one_vs_all", "op:shuffle"]),
+                .require(&["reorder_then_select", "op:into_single_target", "owned_arrays_shrunk_in_place", "records_not_a_fresh_allocation", "op:split_owned", "op:split_view", "op:with_labels", "op:one_vs_all", "op:shuffle"]),
             enum_sub("single_op_grid", |t: Tier| single_op_grid(t.pick(9, 24)), check),
             enum_sub("from_bytes", |t: Tier| byte_cases(t.pick(4000, 40000)), check),
             enum_sub("pair_grid", |t: Tier| pair_grid(if t == Tier::Quick { &[1, 5] } else { &[1, 2, 5, 8, 13] }), check),
